@@ -1,7 +1,7 @@
 #!/bin/bash
 # Runs every seeded change against the checks that could plausibly notice it (scratch worktree, never /repo) and
 # writes /verif/seeded/RESULTS.md. usage: seeded_table.sh [id ...]
-cd /verif
+cd ${VERIF_ROOT:-/verif}
 declare -A props=(
  [C01-a]="C01 C03" [C01-b]="C01" [C02-a]="C02" [C02-b]="C02" [C03-a]="C03" [C03-b]="C03 C02"
  [C04-a]="C04 C07" [C05-a]="C05 C11" [C06-a]="C06" [C06-b]="C06" [C07-a]="C07" [C09-a]="C09" [C09-b]="C09"
